@@ -12,6 +12,7 @@ are inlined context-sensitively; library calls go through sa.apitable.
 from __future__ import annotations
 
 import ast
+from fractions import Fraction
 
 from .model import AnalysisError, ClassInfo, ExternalClass, FunctionInfo, ModuleInfo
 from .terms import (
@@ -674,6 +675,18 @@ class Interp:
         bt = base.term
         if bt.op == "astype_dyn" and bt.args[1] == T("dtype", v.term):
             bt = bt.args[0]  # a buffer of the block's own dtype stores it without a cast
+        if base.kind == "arr" and base.shape is not None and bt.op == "stack" and len(bt.args) >= 3 and bt.args[-1].op == "zeros" and v.kind == "arr" and v.shape is not None and len(v.shape) == len(base.shape) and bt.args[0].op == "const":
+            # [A, 0][..., k:] = B  with k the extent of A  is  [A, B]
+            axis = int(bt.args[0].args[0])
+            items = idx.items if idx.kind == "tuple" and idx.items is not None else [idx]
+            if len(items) == axis + 1 and all(it.kind == "slice" and all(x.kind == "none" for x in it.items) for it in items[:axis]) and items[axis].kind == "slice":
+                lo, hi, step = items[axis].items
+                lod = Dim(lo.const) if lo.has_const and isinstance(lo.const, int) else lo.dim
+                zt = bt.args[-1].args[axis] if len(bt.args[-1].args) > axis else None
+                zd = zt.args[0] if zt is not None and zt.op == "dim" else (Dim(int(zt.args[0])) if zt is not None and zt.op == "const" and isinstance(zt.args[0], Fraction) else None)
+                if zd is not None and zd == v.shape[axis] and hi.kind == "none" and step.kind == "none" and lod is not None and all(ax == axis or db == dv for ax, (db, dv) in enumerate(zip(base.shape, v.shape))) and base.shape[axis] == lod + v.shape[axis]:
+                    return T("stack", *bt.args[:-1], v.term)
+            return None
         if base.kind != "arr" or base.shape is None or bt.op != "zeros" or v.kind != "arr" or v.shape is None:
             return None
         items = idx.items if idx.kind == "tuple" and idx.items is not None else [idx]
